@@ -18,7 +18,8 @@ EXPLANATION = (
     "before factoring; (R5) the KKT wrapper forwards Dsigns, regularisation parameters and the ordering; (R6) the two "
     "pivot-processing sites (k=0 and k>=1) have the same decision structure; (R7) every buffer that is accumulated "
     "into during the numeric pass is wholly reset at the start of the pass; (R8) at both pivot sites D[k] == 0 is tested, "
-    "and returns ZeroPivot, on every path before 1/D[k] is formed - with or without regularisation.")
+    "and returns ZeroPivot, on every path before 1/D[k] is formed - with or without regularisation; (R9) is_triu, on which "
+    "the NotUpperTriangular rejection rests, examines every stored entry of every column.")
 ASSUMPTIONS = ['rustc MIR construction and trait resolution are correct', 'amd::order returns a valid permutation']
 
 
@@ -384,6 +385,58 @@ def reset_complete(rep, F, E, tag):
     R.guard(body)
 
 
+def triu_test(rep, F, tag):
+    """check_structure relies on CscMatrix::is_triu to reject inputs with entries below the diagonal; the factorisation
+    never sorts or re-validates.  is_triu must quantify over *every* stored entry of every column (QDLDL accepts
+    unsorted columns, so looking at the last entry of a column is not enough)."""
+    R = rep.rule('C12.R9', 'is_triu examines every stored entry of every column (row > col anywhere => false); check_structure calls it')
+
+    def body():
+        f = F.one(name='is_triu', adt='CscMatrix')
+        qs = [c for c in f.calls if c.callee.name in ('any', 'all')]
+        ok = False
+        why = '%d any/all calls' % len(qs)
+        if len(qs) == 1:
+            q = qs[0]
+            src = canon(f.sym_operand(q.args[0])).replace('withoverflow', '').replace(').0', ')')
+            m = re.fullmatch(r'iter\(index\(self\.rowval, Range::Range\(index\(self\.colptr, (.*)\), index\(self\.colptr, add\((.*), 1_usize\)\)\)\)\)', src)
+            cl = [canon(g.sym_local(0)) for g in F.closures_of.get(f.key, [])]
+            col_ok = m is not None and m.group(1) == m.group(2) and re.fullmatch(r'next\(into_iter\(Range::Range\(0_usize, (ncols\(self\)|self\.n)\)\)\)@Some\.0', m.group(1)) is not None
+            if q.callee.name == 'any':
+                pred_ok = len(cl) == 1 and re.fullmatch(r'lt\(arg1\._ref__\w+, arg2\)', cl[0]) is not None
+            else:
+                pred_ok = len(cl) == 1 and re.fullmatch(r'le\(arg2, arg1\._ref__\w+\)', cl[0]) is not None
+            ok = col_ok and pred_ok
+            why = 'quantifier %s over %s with predicate %s' % (q.callee.name, src[:140], cl)
+            # decision: a hit returns false, exhausting the columns returns true
+            outs = set()
+            for val, ret, ev, tr in Walker(f, cut_loops=True).leaves():
+                hit = [v for k, v in val.items() if k.startswith(q.callee.name + '(')]
+                if ret[0] == 'c' and hit:
+                    outs.add((q.callee.name, hit[0], ret[1]))
+                if ret[0] == 'c' and not hit:
+                    outs.add(('end', None, ret[1]))
+            want = {('any', 1, 0), ('end', None, 1)} if q.callee.name == 'any' else {('all', 0, 0), ('end', None, 1)}
+            ok = ok and outs == want
+            why += '; outcomes %s' % sorted(outs, key=str)
+        if not qs:
+            # an explicit inner loop over the column's entries is the same test
+            pat = re.compile(r'lt\((next\(into_iter\(Range::Range\(0_usize, (ncols\(self\)|self\.n)\)\)\)@Some\.0), next\((into_iter|iter)\((iter\()?index\(self\.rowval, Range::Range\(index\(self\.colptr, .*\)@Some\.0\)')
+            hits = set()
+            for val, ret, ev, tr in Walker(f, cut_loops=True).leaves():
+                for k, v in val.items():
+                    if pat.match(k.replace('withoverflow', '')) and v == 1 and ret[0] == 'c':
+                        hits.add(ret[1])
+            ok = hits == {0}
+            why += '; explicit-loop form: %s' % sorted(hits)
+        R.check(ok, 'all-entries' + tag, 'is_triu does not test every stored entry of every column against row > col (%s): an unsorted column can hide a '
+                'sub-diagonal entry, which permute_symmetric then silently drops' % why, f.loc())
+        cs = F.one(name='check_structure')
+        R.check(len(calls_named(cs, 'is_triu')) == 1, 'used' + tag, 'check_structure does not call is_triu', cs.loc())
+
+    R.guard(body)
+
+
 def run(ctx, rep, tier):
     for cfg in (CONFIGS_THOROUGH if tier == 'thorough' else CONFIGS):
         F = ctx.facts(cfg)
@@ -397,3 +450,4 @@ def run(ctx, rep, tier):
         wrapper(rep, F, tag)
         pivot_sites(rep, F, tag)
         reset_complete(rep, F, E, tag)
+        triu_test(rep, F, tag)
